@@ -188,6 +188,49 @@ pub fn h_c04_pushpop_h3() {
     push_pop(3)
 }
 
+/// Pushing onto a stack whose top population is empty (as left behind by ClearPopulation or a
+/// selection of nothing) adds a level like any other push.
+/// @h tier=quick bound="stack [[a],[]]: push [x,y], read all, try_pop twice" unwind=6
+#[cfg_attr(kani, kani::proof)]
+#[cfg_attr(kani, kani::unwind(6))]
+pub fn h_c04_push_on_empty_top() {
+    let (mut p, mut m) = build_sizes(2, [1, 0, 0, 0]);
+    let (a, b) = (sym::u8(), sym::u8());
+    p.push(vec![ind(a), ind(b)]);
+    m.h = 3;
+    m.size[2] = 2;
+    m.tag[2][0] = a;
+    m.tag[2][1] = b;
+    check_all(&p, &m);
+    let top = p.try_pop();
+    m.h = 2;
+    check_all(&p, &m);
+    let e = p.try_pop();
+    assert!(matches!(&e, Some(v) if v.is_empty()), "the empty population is still there below");
+    m.h = 1;
+    check_all(&p, &m);
+    vcover!(a != b, "reached");
+    std::mem::forget((p, top, e));
+}
+/// @h tier=quick bound="stack [[a]]: clear top in place, push [x], read all" unwind=5
+#[cfg_attr(kani, kani::proof)]
+#[cfg_attr(kani, kani::unwind(5))]
+pub fn h_c04_push_after_inplace_clear() {
+    let (mut p, mut m) = build_sizes(1, [1, 0, 0, 0]);
+    let removed = p.current_mut().pop();
+    assert!(removed.is_some(), "inner pop");
+    m.size[0] = 0;
+    check_all(&p, &m);
+    let a = sym::u8();
+    p.push(vec![ind(a)]);
+    m.h = 2;
+    m.size[1] = 1;
+    m.tag[1][0] = a;
+    check_all(&p, &m);
+    vcover!(true, "reached");
+    std::mem::forget(p);
+}
+
 /// In-place edits through current_mut / get_current_mut (overwrite an individual, edit a
 /// solution, remove an individual), then pop(): the edits land in the top population only.
 /// (Growing the inner Vec through the reference is avoided: the re-allocation path with a
